@@ -22,10 +22,26 @@
  *        -> <id> OK <framehex> <applied> d=<ok|diff|E..> calls=<srcSize>:<capacity>:<windowSize>;...
  *        -> <id> ERR <name> <applied> calls=...
  *  B <id>            -> <id> OK sequenceBound samples (T-tie of ZSTD_sequenceBound) : n=bound,...
+ *  (round 2)
+ *  D <id> <contenthex> <dictID> <r0.r1.r2|->
+ *        zstd-format dictionary (magic, entropy tables, content) built by ZDICT_finalizeDictionary from the content, the three
+ *        repeat offsets at the end of its header optionally replaced   -> <id> OK <dicthex> hs=<header size>
+ *  K <id> <params> <srchex>
+ *        ZSTD_generateSequences(c, q, bound, src); the array is then filled with a sentinel; ZSTD_compress2(c, src) on the SAME
+ *        context and on a fresh one  -> <id> OK gen=<n|Ename> sentinel=<intact|written@k> c2=<size|Ename> fresh=<size|Ename> same=<0|1> d=<..>
+ *  Z <id> <params> <dictmode> <dicthex|-> <seqs1|-> <src1hex|-> <seqs2|-> <src2hex|->
+ *        call history on ONE context: r1 = ZSTD_compressSequences(seqs1, src1) (may fail), setp = ZSTD_CCtx_setParameter(checksumFlag, 0)
+ *        right after it, r2 = ZSTD_compressSequences(seqs2, src2), c2 = ZSTD_compress2(src2); f2 / fc = the same two calls on fresh
+ *        contexts  -> <id> OK r1=<size|Ename> setp=<ok|Ename> r2=<size|Ename> r2same=<0|1> d2=<..> c2=<size|Ename> c2same=<0|1>
+ *  R <id> <params> <dictmode> <dicthex|-> <script> <srchex|-> <cap|0>
+ *        the P command with a dictionary given to the context first (same result line, ds = dictSize seen by the copier)
+ *  Q with a dictionary additionally prints u=<ok|diff|E..> : ZSTD_decompress_usingDict (history = dictionary content only)
  */
 #define ZSTD_STATIC_LINKING_ONLY
 #include "compress/zstd_compress.c"   /* only to read applied parameters / dictSize and for the unit-level U commands */
 #include "zstd_errors.h"
+#define ZDICT_STATIC_LINKING_ONLY
+#include "zdict.h"
 #include <stdio.h>
 #include <stdlib.h>
 #include <string.h>
@@ -139,7 +155,14 @@ static void cmd_Q(char** t) {
     ZSTD_CCtx_getParameter(c, ZSTD_c_format, &fmt);
     if (ZSTD_isError(r)) { printf("%s ERR ", id); pename(r); putchar(' '); print_applied(c, ds); putchar('\n'); }
     else { printf("%s OK ", id); puthex(out, r); putchar(' '); print_applied(c, ds); putchar(' ');
-           print_decode(out, r, d, dn, x, n, fmt == 1); putchar('\n'); }
+           print_decode(out, r, d, dn, x, n, fmt == 1);
+           if (dn && strcmp(t[3], "-") && fmt != 1) {     /* decoder whose history is the dictionary CONTENT only */
+               unsigned char* back = (unsigned char*)malloc(n + 64); ZSTD_DCtx* dc = ZSTD_createDCtx(); size_t k;
+               ZSTD_DCtx_setParameter(dc, ZSTD_d_windowLogMax, 31);
+               k = ZSTD_decompress_usingDict(dc, back, n + 64, out, r, d, dn);
+               if (ZSTD_isError(k)) { printf(" u=E"); pename(k); } else printf((k != n || (n && memcmp(back, x, n))) ? " u=diff" : " u=ok");
+               ZSTD_freeDCtx(dc); free(back); }
+           putchar('\n'); }
     ZSTD_freeCCtx(c); if (g_cdict) { ZSTD_freeCDict(g_cdict); g_cdict = NULL; }
     free(d); free(x); free(q); free(qx); free(xx); free(out);
 }
@@ -214,6 +237,27 @@ static void cmd_P(char** t) {
     ZSTD_freeCCtx(c); free(p->script); free(p); free(x); free(out);
 }
 
+static void cmd_R(char** t) {
+    const char* id = t[1];
+    size_t dn, n; unsigned char* d = unhex(t[4], &dn); unsigned char* x = unhex(t[6], &n);
+    size_t cap = (size_t)strtoull(t[7], NULL, 10); unsigned char* out; size_t r, ds = 0;
+    ZSTD_CCtx* c = ZSTD_createCCtx(); prod_t* p = (prod_t*)calloc(1, sizeof(prod_t)); int fmt = 0;
+    if (cap == 0) cap = ZSTD_compressBound(n) + 64;
+    out = (unsigned char*)malloc(cap ? cap : 1);
+    p->script = strdup(strcmp(t[5], "-") ? t[5] : ""); p->cur = p->script;
+    r = apply_cparams(c, t[2]);
+    if (!ZSTD_isError(r)) r = give_dict(c, t[3], d, dn);
+    ZSTD_registerSequenceProducer(c, p, producer);
+    if (!ZSTD_isError(r)) { r = ZSTD_compress2(c, out, cap, x, n); ds = c->cdict ? c->cdict->dictContentSize : 0; }
+    ZSTD_CCtx_getParameter(c, ZSTD_c_format, &fmt);
+    if (ZSTD_isError(r)) { printf("%s ERR ", id); pename(r); putchar(' '); print_applied(c, ds); }
+    else { printf("%s OK ", id); puthex(out, r); putchar(' '); print_applied(c, ds); putchar(' ');
+           print_decode(out, r, d, dn, x, n, fmt == 1); }
+    printf(" calls=%s\n", p->ll ? p->log : "-");
+    ZSTD_freeCCtx(c); if (g_cdict) { ZSTD_freeCDict(g_cdict); g_cdict = NULL; }
+    free(p->script); free(p); free(d); free(x); free(out);
+}
+
 static void cmd_B(char** t) {
     static const size_t S[] = {0, 1, 2, 3, 5, 6, 1023, 1024, 1025, 3071, 3072, 131071, 131072, 131073, 1000000, 4294967295UL};
     size_t i;
@@ -233,6 +277,83 @@ static void cmd_A(char** t) {
     else { printf("%s OK ", id); print_applied(c, ds); putchar('\n'); }
     ZSTD_freeCCtx(c); if (g_cdict) { ZSTD_freeCDict(g_cdict); g_cdict = NULL; }
     free(d);
+}
+
+/* ---- round 2: dictionaries in zstd format, call histories on one context ---- */
+static void cmd_D(char** t) {
+    size_t cn; unsigned char* content = unhex(t[2], &cn); unsigned id = (unsigned)strtoul(t[3], NULL, 10);
+    size_t cap = cn + (1 << 16); unsigned char* dict = (unsigned char*)malloc(cap); ZDICT_params_t zp; size_t dn, hs;
+    size_t ns = cn >= 64 ? 8 : 1, i; size_t* ss = (size_t*)malloc(ns * sizeof(size_t));
+    memset(&zp, 0, sizeof(zp)); zp.dictID = id;
+    for (i = 0; i < ns; i++) ss[i] = cn / ns;                 /* samples = the content cut in pieces */
+    dn = ZDICT_finalizeDictionary(dict, cap, content, cn, content, ss, (unsigned)ns, zp);
+    if (ZDICT_isError(dn)) { printf("%s ERR %s\n", t[1], ZDICT_getErrorName(dn)); }
+    else {
+        hs = ZDICT_getDictHeaderSize(dict, dn);
+        if (strcmp(t[4], "-") && !ZSTD_isError(hs) && hs >= 12) { unsigned a, b, c;
+            if (sscanf(t[4], "%u.%u.%u", &a, &b, &c) == 3) { MEM_writeLE32(dict + hs - 12, a); MEM_writeLE32(dict + hs - 8, b); MEM_writeLE32(dict + hs - 4, c); } }
+        printf("%s OK ", t[1]); puthex(dict, dn); printf(" hs=%lu\n", (unsigned long)hs);
+    }
+    free(content); free(dict); free(ss);
+}
+static void pres(const char* k, size_t r) { printf(" %s=", k); if (ZSTD_isError(r)) { putchar('E'); pename(r); } else printf("%lu", (unsigned long)r); }
+
+static void cmd_K(char** t) {
+    const char* id = t[1]; size_t n; unsigned char* x = unhex(t[3], &n);
+    size_t bound = ZSTD_compressBound(n) + 64; unsigned char* o1 = (unsigned char*)malloc(bound); unsigned char* o2 = (unsigned char*)malloc(bound);
+    size_t cap = ZSTD_sequenceBound(n) + 8, i, g, r1, r2, hit = (size_t)-1; ZSTD_Sequence* q = (ZSTD_Sequence*)malloc(cap * sizeof(ZSTD_Sequence));
+    ZSTD_CCtx* c = ZSTD_createCCtx(); ZSTD_CCtx* f = ZSTD_createCCtx();
+    apply_cparams(c, t[2]); apply_cparams(f, t[2]);
+    g = ZSTD_generateSequences(c, q, cap, x, n);
+    memset(q, 0xA5, cap * sizeof(ZSTD_Sequence));
+    r1 = ZSTD_compress2(c, o1, bound, x, n);
+    for (i = 0; i < cap * sizeof(ZSTD_Sequence); i++) if (((unsigned char*)q)[i] != 0xA5) { hit = i / sizeof(ZSTD_Sequence); break; }
+    r2 = ZSTD_compress2(f, o2, bound, x, n);
+    printf("%s OK", id); pres("gen", g);
+    if (hit == (size_t)-1) printf(" sentinel=intact"); else printf(" sentinel=written@%lu", (unsigned long)hit);
+    pres("c2", r1); pres("fresh", r2);
+    printf(" same=%d ", (!ZSTD_isError(r1) && r1 == r2 && !memcmp(o1, o2, r1)) ? 1 : 0);
+    if (!ZSTD_isError(r1)) print_decode(o1, r1, NULL, 0, x, n, 0); else printf("d=-");
+    putchar('\n');
+    ZSTD_freeCCtx(c); ZSTD_freeCCtx(f); free(x); free(o1); free(o2); free(q);
+}
+
+static void cmd_Z(char** t) {
+    const char* id = t[1]; size_t dn, n1, n2; unsigned char* d = unhex(t[4], &dn);
+    unsigned char* x1 = unhex(t[6], &n1); unsigned char* x2 = unhex(t[8], &n2);
+    ZSTD_Sequence *q1, *q2; size_t nq1 = parse_seqs(t[5], &q1, 0), nq2 = parse_seqs(t[7], &q2, 0);
+    size_t b1 = ZSTD_compressBound(n1) + 64, b2 = ZSTD_compressBound(n2) + 64;
+    unsigned char* o1 = (unsigned char*)malloc(b1); unsigned char* o2 = (unsigned char*)malloc(b2); unsigned char* o3 = (unsigned char*)malloc(b2);
+    ZSTD_CCtx* c = ZSTD_createCCtx(); ZSTD_CCtx* f = ZSTD_createCCtx(); size_t r1, sp, r2, f2, c2, fc; int fmt = 0;
+    apply_cparams(c, t[2]); apply_cparams(f, t[2]);
+    give_dict(c, t[3], d, dn);
+    r1 = ZSTD_compressSequences(c, o1, b1, q1, nq1, x1, n1);
+    sp = ZSTD_CCtx_setParameter(c, ZSTD_c_checksumFlag, 0);
+    r2 = ZSTD_compressSequences(c, o2, b2, q2, nq2, x2, n2);
+    {   ZSTD_CDict* keep = g_cdict; g_cdict = NULL;            /* the fresh context gets its own CDict */
+        give_dict(f, t[3], d, dn);
+        f2 = ZSTD_compressSequences(f, o3, b2, q2, nq2, x2, n2);
+        if (g_cdict) { ZSTD_freeCCtx(f); f = NULL; ZSTD_freeCDict(g_cdict); }
+        g_cdict = keep; }
+    ZSTD_CCtx_getParameter(c, ZSTD_c_format, &fmt);
+    printf("%s OK", id); pres("r1", r1); printf(" setp=%s", ZSTD_isError(sp) ? "E" : "ok"); if (ZSTD_isError(sp)) pename(sp);
+    pres("r2", r2);
+    printf(" r2same=%d ", (ZSTD_isError(r2) && ZSTD_isError(f2)) ? (ZSTD_getErrorCode(r2) == ZSTD_getErrorCode(f2))
+                          : (!ZSTD_isError(r2) && !ZSTD_isError(f2) && r2 == f2 && !memcmp(o2, o3, r2)));
+    if (!ZSTD_isError(r2)) { printf("d2"); print_decode(o2, r2, d, dn, x2, n2, fmt == 1); } else printf("d2d=-");
+    pres("f2", f2);
+    /* and a plain ZSTD_compress2 afterwards vs a fresh context with the same dictionary */
+    c2 = ZSTD_compress2(c, o2, b2, x2, n2);
+    {   ZSTD_CCtx* g = ZSTD_createCCtx(); ZSTD_CDict* keep = g_cdict; g_cdict = NULL;
+        apply_cparams(g, t[2]); give_dict(g, t[3], d, dn);
+        fc = ZSTD_compress2(g, o3, b2, x2, n2);
+        ZSTD_freeCCtx(g); if (g_cdict) ZSTD_freeCDict(g_cdict); g_cdict = keep; }
+    pres("c2", c2);
+    printf(" c2same=%d", (ZSTD_isError(c2) && ZSTD_isError(fc)) ? (ZSTD_getErrorCode(c2) == ZSTD_getErrorCode(fc))
+                         : (!ZSTD_isError(c2) && !ZSTD_isError(fc) && c2 == fc && !memcmp(o2, o3, c2)));
+    putchar('\n');
+    ZSTD_freeCCtx(c); if (f) ZSTD_freeCCtx(f); if (g_cdict) { ZSTD_freeCDict(g_cdict); g_cdict = NULL; }
+    free(d); free(x1); free(x2); free(q1); free(q2); free(o1); free(o2); free(o3);
 }
 
 #ifndef C17_NO_UNITS
@@ -304,6 +425,10 @@ int main(void) {
         else if (t[0][0] == 'P' && nt >= 6) cmd_P(t);
         else if (t[0][0] == 'B' && nt >= 2) cmd_B(t);
         else if (t[0][0] == 'A' && nt >= 6) cmd_A(t);
+        else if (t[0][0] == 'R' && nt >= 8) cmd_R(t);
+        else if (t[0][0] == 'D' && nt >= 5) cmd_D(t);
+        else if (t[0][0] == 'K' && nt >= 4) cmd_K(t);
+        else if (t[0][0] == 'Z' && nt >= 9) cmd_Z(t);
 #ifndef C17_NO_UNITS
         else if (t[0][0] == 'U' && nt >= 4) cmd_U(t, nt);
 #endif
